@@ -15,7 +15,7 @@ RULE = ("(A) Alignment.gamma_k_disorder(d, c) on library best / soft alignments 
         "reference; (B) GammaResults.gamma_cat / gamma_k against 1 - observed/mean(chance) recomputed from the stored "
         "alignments, <= 1, == 1 on continua whose annotators agree on every category and leave nothing unaligned; "
         "(C) refusal for non-combined dissimilarities (gamma-cat, gamma-k of a present and of an absent category); (D) "
-        "hand-built alignments measured, then edited through the public UnitaryAlignment.n_tuple setter, then measured again; (E) one alignment object measured by 8 user threads at once; unlabelled units in a quarter of the cases whose categorical component is the default one. non-trivial = alignment with >= 1 unitary alignment holding 2 "
+        "labels '', '0', ' ', 'None' (legal, falsy- or None-looking) in 30 % of the label-free cases; hand-built alignments measured, then edited through the public UnitaryAlignment.n_tuple setter, then measured again; (E) one alignment object measured by 8 user threads at once; unlabelled units in a quarter of the cases whose categorical component is the default one. non-trivial = alignment with >= 1 unitary alignment holding 2 "
         "real units; distinct by SHA-1")
 ASSUMPTIONS = [
     "weights and values use the combined dissimilarity's own components through their d() (weighting logic is what C12 "
